@@ -1,7 +1,85 @@
-From Coq Require Import List NArith Bool.
-Import ListNotations.
-Require Import MV.C08.Model MV.C08.Spec MV.C08.Exec.
-Open Scope N_scope.
+(* C08 — property theorems (statements only; proofs in ProofsSan / ProofsEsc / ProofsLine /
+   ProofsText / ExecProofs).
 
-Theorem C08_placeholder : sanitize_metric_name [49; 97] = [95; 97].
-Proof. reflexivity. Qed.
+   Reading guide.  Model.v transcribes formatting.rs and the text composition of Inner::render;
+   Spec.v is an independent strict reader of the exposition format ([parse_line], [parse_text],
+   [family_ok], [metric_name_ok], [label_name_ok]).  [toks d s]: s is a concatenation of escape
+   tokens; [dec false s]: what a reader decodes from it.  [wf_rcase]: the property's precondition
+   (non-empty names and label keys, numbers are numbers, family names pairwise distinct).
+   [render_text true] is the code after the fix commit, [render_text false] the code as found. *)
+From Coq Require Import List NArith Bool String.
+Import ListNotations.
+Require Import MV.C08.Model MV.C08.Spec MV.C08.Exec MV.C08.ProofsSan MV.C08.ProofsEsc MV.C08.ProofsLine
+        MV.C08.ProofsText MV.C08.ExecProofs.
+Open Scope N_scope.
+Open Scope list_scope.
+
+Theorem C08_metric_name_grammar : forall s, s <> [] ->
+  metric_name_ok (sanitize_metric_name s) = true /\ List.length (sanitize_metric_name s) = List.length s.
+Proof. exact metric_name_grammar. Qed.
+
+Theorem C08_label_name_grammar : forall s, s <> [] ->
+  label_name_ok (sanitize_label_key s) = true /\ List.length (sanitize_label_key s) = List.length s.
+Proof. exact label_name_grammar. Qed.
+
+Theorem C08_escape_tokens : forall is_desc s pending_backslash, toks is_desc (esc is_desc pending_backslash s).
+Proof. exact esc_toks. Qed.
+
+Theorem C08_no_early_termination : forall v,
+  (forall n acc done rest,
+     read_labels (LVal n acc) done (sanitize_label_value v ++ 34 :: rest)
+     = read_labels LAfter ((n, rev acc ++ dec false (sanitize_label_value v)) :: done) rest)
+  /\ ~ In 10 (sanitize_label_value v)
+  /\ read_doc false [] (sanitize_description v) = Some (dec false (sanitize_description v))
+  /\ ~ In 10 (sanitize_description v).
+Proof. exact no_early_termination. Qed.
+
+Theorem C08_escape_faithful_without_backslash : forall is_desc s,
+  ~ In 92 s -> dec false (esc is_desc false s) = s.
+Proof. exact esc_faithful. Qed.
+
+Theorem C08_line_roundtrip : forall fx n g ls sfx a v u,
+  n <> [] -> keys_ok g -> keys_ok ls -> suffix_ok sfx -> addl_ok a -> value_ok v = true ->
+  parse_line (metric_line_body fx (sanitize_metric_name n) sfx (key_labels g ls) a v u)
+  = Some (LSample (full_name fx (sanitize_metric_name n) sfx u) (map dl (imap_of (g ++ ls)) ++ addl_pairs a) v).
+Proof. exact line_roundtrip_keys. Qed.
+
+Theorem C08_help_line_roundtrip : forall nm desc, mname nm ->
+  parse_line (lit "# HELP " ++ nm ++ [32] ++ sanitize_description desc)
+  = Some (LHelp nm (dec false (sanitize_description desc))).
+Proof. exact help_line_roundtrip. Qed.
+
+Theorem C08_type_line_roundtrip : forall nm k, mname nm ->
+  parse_line (lit "# TYPE " ++ nm ++ [32] ++ type_word k) = Some (LType nm (kind_mtype k)).
+Proof. exact type_line_roundtrip. Qed.
+
+(* every line of a rendering is HELP / TYPE / sample / blank, there are exactly as many lines of
+   each sort as the structured rendering has (user strings add none), and the family structure
+   holds; [unit_on rc] ranges over both settings *)
+Theorem C08_family_structure : forall rc, wf_rcase rc = true ->
+  exists pl, parse_text (render_text true rc) = Some pl /\ family_ok pl = true
+    /\ List.length (filter is_type pl) = List.length (fams rc)
+    /\ List.length (filter is_blank pl) = List.length (fams rc)
+    /\ List.length (filter is_help pl) = expected_helps rc
+    /\ List.length (filter is_sample pl) = expected_samples rc.
+Proof. exact render_spec. Qed.
+
+Theorem C08_family_structure_refuted_before_fix :
+  exists rc, wf_rcase rc = true /\ exposition_ok (render_text false rc) = false
+             /\ spec_ok (CRender false rc) (run_case (CRender false rc)) = false.
+Proof. exact family_structure_refuted_before_fix. Qed.
+
+Theorem C08_spec_ok_on_model : forall c,
+  match c with CRender fx _ => fx = true | _ => True end -> spec_ok c (run_case c) = true.
+Proof. exact spec_ok_on_model. Qed.
+
+Theorem C08_spec_ok_render_sound : forall fx rc o, wf_rcase rc = true -> spec_ok (CRender fx rc) o = true ->
+  exists pl, parse_text o = Some pl /\ family_ok pl = true
+    /\ List.length (filter is_type pl) = List.length (fams rc)
+    /\ List.length (filter is_sample pl) = expected_samples rc.
+Proof. exact spec_ok_render_sound. Qed.
+
+Theorem C08_example_satisfiable :
+  wf_rcase example_case = true /\ exposition_ok (render_text true example_case) = true
+  /\ exposition_ok (render_text false example_case) = false.
+Proof. exact example_satisfiable. Qed.
